@@ -55,7 +55,8 @@ func genSetOp(t *rapid.T) op {
 // opGroup draws one op (or a short burst). Lists are built with rapid.SliceOfN so that rapid can
 // shrink a failing history by deleting elements.
 func opGroup(nmsg int, withCleanup, withInject bool) *rapid.Generator[[]op] {
-	kinds := []string{"observe", "observe", "loopback", "loopback", "gossip", "gossip", "gossip", "gossip", "gossipvalid", "gossipvalid", "gossipvalid", "gossipvalid", "inbound", "inbound", "set", "quorumrun", "quorumrun", "settle", "replay", "rotate-before-observe"}
+	kinds := []string{"observe", "observe", "loopback", "loopback", "gossip", "gossip", "gossip", "gossip", "gossipvalid", "gossipvalid", "gossipvalid", "gossipvalid", "inbound", "inbound", "set", "quorumrun", "quorumrun", "settle", "replay", "rotate-before-observe",
+		"retry", "retry-after-rotation", "storefault-quorumrun"}
 	if withCleanup {
 		kinds = append(kinds, "cleanup")
 	}
@@ -106,10 +107,32 @@ func opGroup(nmsg int, withCleanup, withInject bool) *rapid.Generator[[]op] {
 			size := rapid.IntRange(2, 5).Draw(t, "size")
 			off := rapid.SampledFrom([]int{1, 2, 30}).Draw(t, "off")
 			out := []op{{K: "gossip", A: m, B: 1, C: 0}, {K: "gossip", A: m, B: 2, C: 0}, {K: "set", A: size, B: off, C: 0, D: 1}}
-			for j := 0; j < size; j++ {
+			// all, some or none of the new set's members have signed by the time the node observes
+			for j, n := 0, rapid.OneOf(rapid.Just(size), rapid.IntRange(0, size)).Draw(t, "signed"); j < n; j++ {
 				out = append(out, op{K: "gossip", A: m, B: 1 + off + j, C: 0})
 			}
 			return append(out, op{K: "observe", A: m}, op{K: "loopback", A: 0})
+		case "retry":
+			return []op{{K: "retry"}}
+		case "retry-after-rotation": // an own observation stuck below quorum, the set is replaced, the retransmission timer fires, then members of the new set sign
+			m := rapid.IntRange(0, nmsg-1).Draw(t, "m")
+			size := rapid.IntRange(1, 5).Draw(t, "size")
+			off := rapid.SampledFrom([]int{1, 2, 30}).Draw(t, "off")
+			out := []op{{K: "observe", A: m}, {K: "loopback", A: 0}, {K: "set", A: size, B: off, C: rapid.IntRange(-1, 0).Draw(t, "ownpos"), D: 1}, {K: "retry"}}
+			for j, n := 0, rapid.IntRange(1, size+1).Draw(t, "signed"); j < n; j++ {
+				out = append(out, op{K: "gossip", A: m, B: 1 + off + j, C: 0})
+			}
+			return out
+		case "storefault-quorumrun": // the store starts failing; a message then reaches quorum and observations keep arriving
+			m := rapid.IntRange(0, nmsg-1).Draw(t, "m")
+			out := []op{{K: "storefault"}, {K: "observe", A: m}, {K: "loopback", A: 0}}
+			for j, n := 0, rapid.IntRange(1, 8).Draw(t, "cnt"); j < n; j++ {
+				out = append(out, op{K: "gossip", A: m, B: 1 + j, C: 0})
+			}
+			for j, n := 0, rapid.IntRange(1, 4).Draw(t, "again"); j < n; j++ {
+				out = append(out, op{K: "gossip", A: m, B: 1 + j, C: 0})
+			}
+			return out
 		case "replay": // a member's genuine observation of one message, then its signature again under another message's digest
 			m := rapid.IntRange(0, nmsg-1).Draw(t, "m")
 			sgn := rapid.IntRange(0, 6).Draw(t, "signer")
